@@ -91,7 +91,7 @@ impl Property for C17 {
             }
             let answers = rng.below(4) != 0;
             if answers {
-                p.responder = Some(ResponderCfg { records: recs.clone(), delay_ms: 10 + rng.below(80), honor_known_answers: false, additionals: false, active: true, max_answers: if rng.below(3) == 0 { Some(1 + rng.below(3) as u32) } else { None }, skip_first: rng.below(2) as u32 });
+                p.responder = Some(ResponderCfg { records: recs.clone(), delay_ms: 10 + rng.below(80), honor_known_answers: false, additionals: false, active: true, max_answers: if rng.below(3) == 0 { Some(1 + rng.below(3) as u32) } else { None }, skip_first: rng.below(2) as u32, conflict_probes: 0 });
             }
             let pi = s.peers.len();
             s.peers.push(p);
